@@ -1,7 +1,7 @@
 (* Every session-level request handler preserves the invariant and never dereferences nil. *)
 From Coq Require Import ZifyBool ZifyNat ZifyN.
 From GVL Require Import NList Wire.
-From GV_serverhostile Require Import Model Basics Inv.
+From GV_serverhostile Require Import Model Basics Inv FindFree.
 Open Scope N_scope.
 
 (* the session handles a request of connection c only if it is not tied to another TCP connection *)
@@ -15,6 +15,7 @@ Definition tcp_triple (c : conn) (ss : session) : Prop :=
 Record Post (c : conn) (s : server) (ss : session) (s1 : server) (ss1 : session) (e : rerr) : Prop := mkPost {
   p_inv : InvX (Some (c_id c)) (set_sess s1 ss1);
   p_conns : v_conns s1 = v_conns s;
+  p_sess : v_sess s1 = v_sess s;
   p_next : v_next s1 = v_next s;
   p_id : s_id ss1 = s_id ss;
   p_sconns : s_conns ss1 = s_conns ss;
@@ -69,7 +70,7 @@ Proof.
   intros I HI Hpre H. pose proof (inv_ok _ s I ss HI) as OK. unfold sess_announce in H.
   assert (Same : Post c s ss s ss e -> (s1, ss1) = (s, ss) -> Post c s ss s1 ss1 e) by (intros P E; inv E; exact P).
   assert (P0 : forall e0, e0 <> RSwitch true -> Post c s ss s ss e0).
-  { intros e0 He0. constructor; [|reflexivity|reflexivity|reflexivity|reflexivity|tauto|tauto].
+  { intros e0 He0. constructor; [|reflexivity|reflexivity|reflexivity|reflexivity|reflexivity|tauto|tauto].
     apply (Inv_sess_only c s ss ss); [assumption|assumption|assumption|reflexivity|assumption|reflexivity|tauto]. }
   destruct (validate_announce ss r) as [n|] eqn:V.
   2:{ injection H as <- <- <- <-. apply P0. discriminate. }
@@ -80,7 +81,7 @@ Proof.
   destruct (s_state ss) eqn:Es; try discriminate.
   destruct (r_ctype r); try discriminate. destruct (r_sdp r) as [k|]; try discriminate.
   destruct (0 <? k) eqn:Ek; try discriminate. inv V. apply N.ltb_lt in Ek.
-  constructor; [|reflexivity|reflexivity|reflexivity|reflexivity|discriminate|].
+  constructor; [|reflexivity|reflexivity|reflexivity|reflexivity|reflexivity|discriminate|].
   - apply (Inv_sess_only c s ss); [assumption|assumption|assumption|reflexivity| | |].
     + sess_ok OK. eexists; split; [reflexivity | assumption].
     + unfold mreader, is_mcast. cbn. reflexivity.
@@ -98,7 +99,7 @@ Lemma Post_same c s ss e0 :
   InvX (Some (c_id c)) s -> In ss (v_sess s) -> tcp_pre c ss -> e0 <> RSwitch true -> Post c s ss s ss e0.
 Proof.
   intros I HI Hpre He0. pose proof (inv_ok _ s I ss HI) as OK.
-  constructor; [|reflexivity|reflexivity|reflexivity|reflexivity|tauto|tauto].
+  constructor; [|reflexivity|reflexivity|reflexivity|reflexivity|reflexivity|tauto|tauto].
   apply (Inv_sess_only c s ss ss); [assumption|assumption|assumption|reflexivity|assumption|reflexivity|tauto].
 Qed.
 
@@ -129,7 +130,7 @@ Proof.
       { intros Hm. cbn [v_mwriters s1]. eapply mreader_counted; [exact I | exact HI|].
         unfold mreader, is_mcast in *. rewrite Hst, Etr. rewrite Htr1 in Hm. exact Hm. }
       do 4 eexists. split; [reflexivity|].
-      constructor; [|reflexivity|reflexivity|reflexivity|reflexivity| |].
+      constructor; [|reflexivity|reflexivity|reflexivity|reflexivity|reflexivity| |].
       * unfold set_sess. cbn [v_conns v_sess v_readers v_active v_mcount v_mwriters v_rtp v_rtcp v_next s1].
         apply (Inv_update_req c s ss ss1); [assumption|assumption|assumption|reflexivity| | |apply I|tauto|].
         -- subst ss1 w. sess_ok OK; destruct p; cbn in *; congruence.
@@ -139,7 +140,7 @@ Proof.
       * intros He (A & B & C). destruct p; try discriminate; unfold is_tcp in C; rewrite Etr in C; discriminate.
     + (* refused by the application: the writer is destroyed again *)
       do 4 eexists. split; [reflexivity|].
-      constructor; [|reflexivity|reflexivity|reflexivity|reflexivity|discriminate|].
+      constructor; [|reflexivity|reflexivity|reflexivity|reflexivity|reflexivity|discriminate|].
       * apply (Inv_sess_only c s ss); [assumption|assumption|assumption|reflexivity| |reflexivity|cbn; tauto].
         sess_ok OK.
       * intros _ (A & B & C). unfold running in B. rewrite Es in B. discriminate.
@@ -224,7 +225,7 @@ Proof.
     match goal with |- context [medias_stop ?x ss] => set (s1 := x) end.
     destruct (medias_stop_some s1 ss (ok_medias ss OK)) as (a & b & ->).
     do 4 eexists. split; [reflexivity|].
-    constructor; [|reflexivity|reflexivity|reflexivity|reflexivity| |].
+    constructor; [|reflexivity|reflexivity|reflexivity|reflexivity|reflexivity| |].
     - unfold set_sess. cbn [v_conns v_sess v_readers v_active v_mcount v_mwriters v_rtp v_rtcp v_next s1].
       match goal with |- context [put_sess ?x _] => set (ss1 := x) end.
       apply (Inv_update_req c s ss ss1); [assumption|assumption|assumption|reflexivity| | |apply I|tauto|].
@@ -264,7 +265,7 @@ Proof.
   assert (Hnm : is_mcast ss = false) by (apply (ok_rec ss OK); rewrite Es; tauto).
   destruct (r_verdict r).
   2:{ do 4 eexists. split; [reflexivity|].
-      constructor; [|reflexivity|reflexivity|reflexivity|reflexivity|discriminate|].
+      constructor; [|reflexivity|reflexivity|reflexivity|reflexivity|reflexivity|discriminate|].
       - apply (Inv_sess_only c s ss); [assumption|assumption|assumption|reflexivity| |reflexivity|cbn; tauto].
         sess_ok OK.
       - intros _ (A & B & C). congruence. }
@@ -277,7 +278,7 @@ Proof.
             (e = RSwitch true -> s_tcpconn ss1 = Some (c_id c) /\ p = SPTCP) -> (e = RNone -> p = SPUDP) ->
             Post c s ss (mkSrv (v_conns s) (v_sess s) (v_readers s) (v_active s) (v_mcount s) (v_mwriters s) rtp' rtcp' (v_next s)) ss1 e).
   { intros ss1 rtp' rtcp' e H1 H2 H3 H4 H5 H6 H7 H8 H9.
-    constructor; [|reflexivity|reflexivity|assumption|assumption| |].
+    constructor; [|reflexivity|reflexivity|reflexivity|assumption|assumption| |].
     - unfold set_sess. cbn [v_conns v_sess v_readers v_active v_mcount v_mwriters v_rtp v_rtcp v_next].
       apply (Inv_update_req c s ss ss1); [assumption|assumption|assumption|assumption| | |apply I|tauto|].
       + destruct OK as [O1 O1b O2 O3 O4 O5 O6 O7]. unfold is_mcast, running in *.
@@ -442,7 +443,7 @@ Proof.
             (forall rid, In rid readers' -> rid = s_id ss \/ In rid (v_readers s)) -> s_tr ss2 <> None ->
             Post c s ss (mkSrv (v_conns s) (v_sess s) readers' (v_active s) mc' mw' (v_rtp s) (v_rtcp s) (v_next s)) ss2 RNone).
   { intros readers' mc' mw' ss2 H1 H2 H3 H4 H5 H6 H7.
-    constructor; [|reflexivity|reflexivity|assumption|assumption|discriminate|].
+    constructor; [|reflexivity|reflexivity|reflexivity|assumption|assumption|discriminate|].
     - unfold set_sess. cbn [v_conns v_sess v_readers v_active v_mcount v_mwriters v_rtp v_rtcp v_next].
       apply (Inv_update_req c s ss ss2); try assumption. intros _. assumption.
     - intros _ (A & B & C). congruence. }
